@@ -1,6 +1,7 @@
 package main
 
 import (
+	"strconv"
 	"encoding/json"
 	"fmt"
 	"sort"
@@ -86,6 +87,13 @@ func ToMal(n Node) types.MalType {
 	case "bool":
 		return n.I != 0
 	case "int":
+		if n.S != "" { // an integer of 10..18 digits, carried as text by the specification
+			x, err := strconv.Atoi(n.S)
+			if err != nil {
+				panic("ToMal: bad big integer " + n.S)
+			}
+			return x
+		}
 		return n.I
 	case "str":
 		return n.S
@@ -142,6 +150,9 @@ func fromMal(v types.MalType, depth int) Node {
 		}
 		return Node{T: "bool", I: 0}
 	case int:
+		if x >= 1000000000 || x <= -1000000000 {
+			return Node{T: "int", S: strconv.Itoa(x)}
+		}
 		return Node{T: "int", I: x}
 	case string:
 		if strings.HasPrefix(x, kwMark) {
@@ -218,8 +229,10 @@ func EqualNode(a, b Node) bool {
 	switch a.T {
 	case "nil":
 		return true
-	case "bool", "int":
+	case "bool":
 		return a.I == b.I
+	case "int":
+		return a.I == b.I && a.S == b.S
 	case "str", "kw", "sym":
 		return a.S == b.S
 	case "fn":
@@ -314,7 +327,11 @@ func canon(sb *strings.Builder, n Node) {
 	case "nil":
 		sb.WriteString("nil")
 	case "bool", "int":
-		fmt.Fprintf(sb, "%s:%d", n.T, n.I)
+		if n.S != "" {
+			fmt.Fprintf(sb, "%s:%s", n.T, n.S)
+		} else {
+			fmt.Fprintf(sb, "%s:%d", n.T, n.I)
+		}
 	case "str", "kw", "sym", "fn", "err", "other":
 		fmt.Fprintf(sb, "%s:%q", n.T, n.S)
 	case "list", "vec", "atom":
